@@ -396,7 +396,14 @@ func CheckOffline(in OfflineInput, sit func(prop, s string)) []Finding {
 					}
 				}
 			}
-			if j.Completed && !j.Canceled && !j.HasError {
+			stopped := false
+			for _, iv := range ivs {
+				if iv.job == c.job && iv.res == "canceled" {
+					stopped = true
+				}
+			}
+			// if every task ran to its natural end the cancel lost the race against completion: success is a sound report
+			if j.Completed && !j.Canceled && !j.HasError && (unrun > 0 || stopped) {
 				add([]string{"C04", "C08"}, "C04:canceled-job-reported-plain-success", "cancel of %s acknowledged at #%d while %d tasks had not run / were running; the job is reported completed, not canceled, without error", name(c.job), c.retSeq, unrun)
 			}
 		}
